@@ -63,6 +63,12 @@ func (c *checker) hook(e *sim.Ev) {
 		c.ext.term(c, s, key, old, nw, e)
 	case "h.elect":
 		c.cov("elect-self")
+		if s.state != Candidate {
+			// the heartbeat fast path (a transport goroutine) turned the candidate into a
+			// follower while the main loop was about to start its election (known finding S14)
+			s.electNotCandTerm = e.A
+			c.cov("elect-while-not-candidate")
+		}
 	case "h.leader.enter":
 		s.enters++
 	case "h.leader.exit":
